@@ -114,7 +114,7 @@ Proof. exact semver_prerelease_before_release. Qed.
 Print Assumptions C04_semver_prerelease_before_release.
 
 (* the operator names of the source (gen/Tables.v, regenerated on every run) are the model's *)
-From LD Require Import TablesProof.
+From LD Require Import TablesOps.
 From LDGen Require Import Tables.
 From Coq Require Import String.
 Theorem C04_operator_names_match_source : map (fun p => (fst p, str_of (snd p))) operator_names = model_ops.
